@@ -43,6 +43,7 @@ class RuleResult:
     findings: list = field(default_factory=list)
     notes: list = field(default_factory=list)
     positive_control: bool | None = None  # embedded must-fire example fired?
+    units: set | None = None  # if set, the floor counts these distinct units (e.g. (class, member) pairs) instead of instances
 
     def inst(self, sample=None, *, exercised: bool = True) -> None:
         self.instances += 1
@@ -96,9 +97,10 @@ class Report:
         errors = list(self.errors)
         for r in self.rules:
             status = "ok"
-            if r.instances < r.floor:
+            counted = len(r.units) if r.units is not None else r.instances
+            if counted < r.floor:
                 errors.append(
-                    f"rule {r.rule}: matched {r.instances} instances, floor is "
+                    f"rule {r.rule}: matched {counted} {'units' if r.units is not None else 'instances'}, floor is "
                     f"{r.floor} (anchor vanished or idiom not recognised)"
                 )
                 status = "BELOW-FLOOR"
